@@ -132,6 +132,45 @@ theorem condition_no_lost_signal (s : List Bool) :
     | relocked => exact absurd hwc h5
     | done => exact absurd hwc hw
 
+open SyncN Sync in
+/-- **condition_no_lost_signal_n.**  The same protocol with *any number `n` of waiters* (`signal()` wakes
+    every sleeping waiter, as `Condition::signal` does with its broadcast): in every interleaving no waiter
+    is asleep once the signal has been issued, and once the signaler is done, as long as some waiter is
+    not done there is a not-yet-done waiter that can take a step (nobody is blocked for ever, no deadlock). -/
+theorem condition_no_lost_signal_n (n : Nat) (r : List (Option Nat)) :
+    let c := run (init n) r
+    (∀ i, c.w i = WPc.sleeping → c.s ≠ SPc.signalled ∧ c.s ≠ SPc.done) ∧
+    (c.s = SPc.done → ∀ i, i < n → c.w i ≠ WPc.done → ∃ j, j < n ∧ c.w j ≠ WPc.done ∧ enabled c (some j) = true) := by
+  intro c
+  have h : NInv c := ninv_run (init n) r (ninv_init n)
+  have hn : c.n = n := condn_run_n (init n) r
+  obtain ⟨h1, h2, h3, h4, h5, h6⟩ := h
+  constructor
+  · intro i hs
+    rcases h1 i hs with h | h | h <;> simp [h]
+  · intro hd i hi hw
+    have hm : c.mutex ≠ Holder.signaler := by
+      intro hx; have := h3.mp hx; rw [hd] at this; simp at this
+    have hsl : c.w i ≠ WPc.sleeping := by
+      intro hx; have := h1 i hx; rw [hd] at this; simp at this
+    cases hmc : c.mutex with
+    | signaler => exact absurd hmc hm
+    | waiter j =>
+      have hj := h6 j hmc
+      have hl := (h2 j).mp hmc
+      refine ⟨j, by omega, by rw [hl]; simp, ?_⟩
+      simp [enabled, hj, hl]
+    | free =>
+      refine ⟨i, hi, hw, ?_⟩
+      have hin : i < c.n := by omega
+      cases hwc : c.w i with
+      | start => simp [enabled, hin, hwc, hmc]
+      | locked => simp [enabled, hin, hwc]
+      | sleeping => exact absurd hwc hsl
+      | woken => simp [enabled, hin, hwc, hmc]
+      | relocked => exact absurd hwc (h5 i)
+      | done => exact absurd hwc hw
+
 /-! ## non-vacuity (tests, labelled as such) -/
 
 example : ParFor.all (-3) 4 3 = [-3, 0, 3, -2, 1, -1, 2] := by decide
@@ -143,5 +182,9 @@ example : (run (init 2) [none, some 0, some 0, none, none, some 1, some 1, none,
     none, none, none, none]).cpos = CPos.done := by decide
 open Sync in
 example : (Cond.init.run [true, true, false, false, false, false, true, true]).w = WPc.done := by decide
+
+open SyncN Sync in
+example : ((run (init 2) [some 0, some 0, some 1, some 1, none, none, none, none, some 1, some 1, some 0, some 0]).w 0,
+    (run (init 2) [some 0, some 0, some 1, some 1, none, none, none, none, some 1, some 1, some 0, some 0]).w 1) = (WPc.done, WPc.done) := by decide
 
 end C13
